@@ -361,14 +361,20 @@ def render_function(model, f, cxx):
     return out
 
 
-def _is_const_top(t):
-    while t[0] in ("c", "v"):
+def _is_const_top(t, model=None):
+    """Top-level const, also when it comes through a typedef or sits on the elements of an array."""
+    idx = type_index(model) if model else {}
+    while True:
         if t[0] == "c":
             return True
-        t = t[1]
-    if t[0] == "a":
-        return _is_const_top(t[1])
-    return False
+        if t[0] == "v":
+            t = t[1]
+        elif t[0] == "a":
+            t = t[1]
+        elif t[0] == "n" and idx.get(t[1], {}).get("kind") == "typedef":
+            t = idx[t[1]]["type"]
+        else:
+            return False
 
 
 def render_variable(model, v, cxx):
@@ -379,9 +385,9 @@ def render_variable(model, v, cxx):
     init = ""
     if cxx:
         init = " = {}"
-        if _is_const_top(v["type"]) and not v.get("static"):
+        if _is_const_top(v["type"], model) and not v.get("static"):
             pre = "extern " + pre
-    elif _is_const_top(v["type"]) or v.get("init"):
+    elif _is_const_top(v["type"], model) or v.get("init"):
         st = strip_cv(v["type"])
         init = " = {0}" if not (cxx and st[0] == "n" and type_index(model)[st[1]]["kind"] == "enum") else " = {}"
         if cxx and not v.get("static"):
